@@ -207,6 +207,8 @@ class Walker:
         self.chain = {}             # dsl depth -> list of prior conds of the open If chain (or None)
         self.switch_stack = []
         self._case_frames = {}
+        self._chain_switch = {}         # (dsl depth, subject, loop) -> synthetic switch id of a loop-generated If / Elif chain
+        self._chain_switch_at = {}      # dsl depth -> synthetic switch id whose Else (Default) may still follow
         self.nid = 0
         self.seqno = 0
         self.inline_depth = inline_depth
@@ -1216,6 +1218,66 @@ class Walker:
             self.unsupported(st, "with statement with several items")
             return
         c = st.items[0].context_expr
+        # `with (m.If if k == 0 else m.Elif)(S == f(k)):` inside the loop over k: an If / Elif chain with one arm per iteration.  When
+        # every arm tests the same subject for equality with a value that depends on the loop index, the arms are the Case arms of a
+        # Switch over that subject (distinct iterations test distinct values: A6), and an `m.Else()` after the loop is its Default.
+        if isinstance(c, ast.Call) and isinstance(c.func, ast.IfExp) and len(c.args) == 1 and not c.keywords:
+            fe = c.func
+            arms = (fe.body, fe.orelse)
+            if all(isinstance(a_, ast.Attribute) and self.is_m(a_.value) for a_ in arms) and (arms[0].attr, arms[1].attr) == ("If", "Elif") and \
+                    isinstance(fe.test, ast.Compare) and len(fe.test.ops) == 1 and isinstance(fe.test.ops[0], ast.Eq) and \
+                    isinstance(fe.test.left, ast.Name) and isinstance(fe.test.comparators[0], ast.Constant) and fe.test.comparators[0].value == 0:
+                kv = self.env.get(fe.test.left.id)
+                cond = ir.norm(self.ex(c.args[0]))
+                loops_here = [fr[1] for fr in self.gen if fr[0] == 'for']
+                if isinstance(kv, tuple) and kv[0] == 'idx' and kv[1] in loops_here and cond[0] == 'cmp' and cond[1] == '==':
+                    lhs, rhs = cond[2], cond[3]
+                    # (S - f(k)) == 0 after normalisation, or S == f(k)
+                    subj = pat = None
+                    if rhs == ('const', 0) and lhs[0] == 'lin' and len(lhs[2]) == 2:
+                        for (t1, c1), (t2, c2) in ((lhs[2][0], lhs[2][1]), (lhs[2][1], lhs[2][0])):
+                            if c1 == 1 and c2 == -1 and not ir.mentions(t1, kv) and ir.mentions(t2, kv):
+                                subj, pat = t1, ir.norm(('bin', '-', t2, ('const', lhs[1]))) if lhs[1] else t2
+                    elif not ir.mentions(lhs, kv) and ir.mentions(rhs, kv):
+                        subj, pat = lhs, rhs
+                    elif not ir.mentions(rhs, kv) and ir.mentions(lhs, kv):
+                        subj, pat = rhs, lhs
+                    if subj is not None:
+                        here = self.dsl
+                        key = (here, ir.show(subj), kv[1])
+                        sid = self._chain_switch.get(key)
+                        if sid is None:
+                            sid = self.fresh()
+                            self._chain_switch[key] = sid
+                            self.t.switches[sid] = subj
+                            self._chain_switch_at[here] = sid
+                        frame = ('case', sid, (pat,), st.lineno)
+                        self.t.switch_cases.setdefault(sid, []).append((pat,))
+                        self._case_frames.setdefault(sid, []).append(frame)
+                        saved = self.dsl
+                        self.dsl = here + (frame,)
+                        self.counters.append(0)
+                        self.order_prefix = self.order_prefix + (0,)
+                        self.chain[self.dsl] = None
+                        self.block(st.body)
+                        self.order_prefix = self.order_prefix[:-1]
+                        self.counters.pop()
+                        self.dsl = saved
+                        return
+        if isinstance(c, ast.Call) and isinstance(c.func, ast.Attribute) and self.is_m(c.func.value) and c.func.attr == "Else" and \
+                self.chain.get(self.dsl) is None and self.dsl in self._chain_switch_at:
+            sid = self._chain_switch_at.pop(self.dsl)
+            frame = ('default', sid)
+            saved = self.dsl
+            self.dsl = saved + (frame,)
+            self.counters.append(0)
+            self.order_prefix = self.order_prefix + (0,)
+            self.chain[self.dsl] = None
+            self.block(st.body)
+            self.order_prefix = self.order_prefix[:-1]
+            self.counters.pop()
+            self.dsl = saved
+            return
         if not (isinstance(c, ast.Call) and isinstance(c.func, ast.Attribute) and self.is_m(c.func.value)):
             self.unsupported(st, f"with {ast.unparse(c)[:40]} is not a DSL block")
             return
@@ -1361,6 +1423,10 @@ class Walker:
 
         def plain(x):
             if self.zip_parts(x) is not None:
+                return True
+            # a list built by a comprehension over range(n): one element per position (its length n is assumed to match: A8)
+            if x[0] == 'gen' and x[1] == 'list' and len(x[3]) == 1 and not x[3][0][2] and x[3][0][0][0] == 'bv' and \
+                    x[3][0][1][0] == 'call' and x[3][0][1][1] == ('name', 'range') and 1 <= len(x[3][0][1][2]) <= 2:
                 return True
             return all(y[0] in ('name', 'attr', 'sub', 'const') for y in ir.walk(x)) and any(y == ('name', 'self') for y in ir.walk(x))
         return tuple(e[2]) if all(plain(a) for a in e[2]) else None
